@@ -151,8 +151,11 @@ class ModelGen:
         self.strleaf = strleaf
         self.leaves = {}
         n = nleaf or rng.randint(3, 6)
+        # mostly plain letters; sometimes ids that are numeric-looking, non-ASCII, contain blanks / dashes, or are
+        # prefixes of each other (puan ids are arbitrary strings)
+        alphabet = list("abcdefgh") if rng.random() < 0.85 else ["0", "10", "1", "\u00e9", "x-y", "A b", "x", "_"]
         for i in range(n):
-            nm = prefix + "abcdefgh"[i]
+            nm = prefix + alphabet[i]
             r = rng.random()
             if r < big:
                 lo = rng.choice([-32768, -1000, -5, 0]); hi = rng.choice([32767, 1000, 7])
